@@ -255,10 +255,43 @@ def lock_scope(rep, prog, fns, sfx, rule="LOCK-SCOPE"):
         rep.floor(rule + " sites", n, 6)
 
 
+def _unsafe_ops(f):
+    """unsafe operations inside a body: calls of unsafe fns (not from a std macro expansion such as format_args!)
+    and dereferences of raw pointers"""
+    out = []
+    for b in f.blocks:
+        t = b["term"]
+        if t["t"] == "call" and t.get("callee_unsafe") and not (t.get("span") or {}).get("macros"):
+            out.append("call %s" % t.get("path"))
+
+        def walk(x):
+            if isinstance(x, dict):
+                if x.get("rawderef"):
+                    out.append("raw pointer dereference")
+                for v in x.values():
+                    walk(v)
+            elif isinstance(x, list):
+                for v in x:
+                    walk(v)
+        walk([s_ for s_ in b["st"] if not s_.get("exp")])      # `exp`: statement from a std macro expansion (vec![..])
+        walk({k: v for k, v in t.items() if k != "span"})
+    return out
+
+
 def no_unsafe(rep, prog, fns, sfx, rule="NO-UNSAFE"):
-    rep.rule(rule, "the cached vectors are only reachable through the locks: no unsafe fn in the database modules")
+    rep.rule(rule, "the cached vectors are only reachable through the locks: no unsafe fn, no call of an unsafe fn and no raw "
+                   "pointer dereference in the database modules (positive control: the same matcher must find the unsafe "
+                   "operations of tz::timezone::repr)")
     bad = [f.path for f in fns if f.get("unsafe")]
-    if bad:
-        rep.violation(rule, "unsafe fns" + sfx, "unsafe functions in database modules: %s" % bad, "src/tz/db")
+    ops = [(f.path, o) for f in fns for o in _unsafe_ops(f)]
+    control = sum(len(_unsafe_ops(f)) for f in prog.fns.values()
+                  if f.crate == "jiff" and f.file == "src/tz/timezone.rs" and "::repr::" in "::" + f.path + "::")
+    if control < 4:
+        rep.violation(rule, "unsafe matcher control" + sfx, "positive control failed: expected the matcher to see the "
+                      "unsafe operations of the tagged pointer in tz::timezone::repr, saw %d" % control, "src/tz/timezone.rs")
     else:
-        rep.ok(rule, "unsafe fns" + sfx, how="%d functions, none unsafe" % len(fns), nontrivial=False)
+        rep.ok(rule, "unsafe matcher control" + sfx, how="matcher sees %d unsafe operations in tz::timezone::repr" % control, nontrivial=False)
+    if bad or ops:
+        rep.violation(rule, "unsafe fns" + sfx, "unsafe in database modules: fns %s, operations %s" % (bad, ops[:6]), "src/tz/db")
+    else:
+        rep.ok(rule, "unsafe fns" + sfx, how="%d functions, none unsafe, no unsafe operation" % len(fns), nontrivial=False)
